@@ -185,10 +185,18 @@ pub struct Queries {
 thread_local! {
     /// order of the two list queries in `observe` (set per game by `play`)
     pub static REP_FIRST: std::cell::Cell<bool> = std::cell::Cell::new(false);
+    /// play states of this game are only asked valid_actions() and is_terminal(), never valid_actions_no_rep()
+    /// (setup states are asked both as always); the rule-only list handed to the monitor is then a copy of the offered one
+    pub static OFFERED_ONLY: std::cell::Cell<bool> = std::cell::Cell::new(false);
 }
+/// fraction of the games played on the offered-only diet (set by check plans whose monitor does not use the rule-only list)
+pub static OFFERED_ONLY_PER_MILLE: std::sync::atomic::AtomicU32 = std::sync::atomic::AtomicU32::new(0);
 
 pub fn observe(g: &GameState) -> Result<Queries, PanicInfo> {
-    let (norep, rep) = if REP_FIRST.with(|c| c.get()) {
+    let (norep, rep) = if OFFERED_ONLY.with(|c| c.get()) {
+        let rep = guard("valid_actions", || g.valid_actions())?;
+        (rep.clone(), rep)
+    } else if REP_FIRST.with(|c| c.get()) {
         let rep = guard("valid_actions", || g.valid_actions())?;
         let norep = guard("valid_actions_no_rep", || g.valid_actions_no_rep())?;
         (norep, rep)
@@ -589,8 +597,14 @@ pub fn play(rec: &mut GameRecord, mut policy: Policy, opts: &PlayOpts, rng: &mut
     if !matches!(policy, Policy::Replay(_)) {
         rec.decoyed = opts.decoy_per_mille > 0 && rng.below(1000) < opts.decoy_per_mille as usize;
         rec.rep_first = rng.chance(1, 4);
+        let oo = OFFERED_ONLY_PER_MILLE.load(std::sync::atomic::Ordering::Relaxed);
+        rec.offered_only = oo > 0 && rng.below(1000) < oo as usize;
     }
     REP_FIRST.with(|c| c.set(rec.rep_first));
+    OFFERED_ONLY.with(|c| c.set(rec.offered_only));
+    if rec.offered_only {
+        sink.count("games_on_the_offered_only_diet");
+    }
     // in every other decoyed game the decoys step only after the monitored state, never before it
     set_decoy_post_only(rec.decoyed && rec.index % 2 == 1);
     if rec.decoyed {
@@ -607,6 +621,7 @@ pub fn play(rec: &mut GameRecord, mut policy: Policy, opts: &PlayOpts, rng: &mut
             mon.on_game_end(rec, sink);
             take_decoys();
             REP_FIRST.with(|c| c.set(false));
+            OFFERED_ONLY.with(|c| c.set(false));
             return Outcome::Aborted;
         }
     };
@@ -720,6 +735,7 @@ pub fn play(rec: &mut GameRecord, mut policy: Policy, opts: &PlayOpts, rng: &mut
     }
     take_decoys();
     REP_FIRST.with(|c| c.set(false));
+    OFFERED_ONLY.with(|c| c.set(false));
     let dc = decoy_calls();
     if dc > 0 {
         sink.add("lookalike_decoy_calls", dc);
